@@ -855,6 +855,7 @@ func (c *Compiler) writeNode(node, parent *node, recv, v, vsrc string, depth int
 					c.wl("if ", nv, ", ok := ", c.fmtV(node, v), "[", key, "]; ok {")
 				}
 				c.wl("_ = ", nv)
+				c.writeCmpNilElem(node.mapv, nv, depth, mode)
 				err := c.writeNode(node.mapv, node, recv, nv, "", depth+1, mode)
 				if err != nil {
 					return err
@@ -877,6 +878,7 @@ func (c *Compiler) writeNode(node, parent *node, recv, v, vsrc string, depth int
 				c.wl(snippet)
 				c.wl(nv, " := ", c.fmtV(node, v), "[", c.fmtP(node.mapk, "k", depth+1), "]")
 				c.wl("_ = ", nv)
+				c.writeCmpNilElem(node.mapv, nv, depth, mode)
 				err = c.writeNode(node.mapv, node, recv, nv, "", depth+1, mode)
 				if mode == modeSet {
 					c.wl(c.fmtV(node, v), "[", c.fmtP(node.mapk, "k", depth+1), "] = ", nv)
@@ -949,6 +951,7 @@ func (c *Compiler) writeNode(node, parent *node, recv, v, vsrc string, depth int
 				c.wl(nv, " := &", c.fmtVd(node, v, depth), "[i]")
 			}
 			c.wl("_ = ", nv)
+			c.writeCmpNilElem(node.slct, nv, depth, mode)
 			err = c.writeNode(node.slct, node, recv, nv, "", depth+1, mode)
 			if err != nil {
 				return err
@@ -1008,6 +1011,16 @@ func (c *Compiler) writeNode(node, parent *node, recv, v, vsrc string, depth int
 	}
 
 	return c.err
+}
+
+// Write the nil test of a pointer-typed map value or slice element the path ends on (compare mode only).
+func (c *Compiler) writeCmpNilElem(elem *node, v string, depth int, mode mode) {
+	if mode != modeCmp || !elem.ptr {
+		return
+	}
+	c.wl("if len(path) == ", strconv.Itoa(depth+1), " {")
+	c.writeCmp(elem, v)
+	c.wl("}")
 }
 
 func (c *Compiler) writeNodeParse(_ *node, pname string) error {
